@@ -452,7 +452,7 @@ impl<'a> Run<'a> {
         }
     }
 
-    fn feed(&mut self, ctx: &mut Ctx, idx: usize, op: &Value, ob: Option<&Value>) {
+    pub fn feed(&mut self, ctx: &mut Ctx, idx: usize, op: &Value, ob: Option<&Value>) {
         let i = op["i"].as_i64().unwrap();
         let name = op["op"].as_str().unwrap();
         let prop = ctx.prop.clone();
@@ -587,6 +587,14 @@ impl<'a> Run<'a> {
             }
         }
         l.last = raw.clone();
+        // ---- C13: the variance never becomes negative or NaN, at any step of a long stream
+        if prop == "C13" && matches!(l.cfg.kind.as_str(), "SD" | "BB") && !l.tainted {
+            let bad = if l.cfg.kind == "SD" { !(raw[0] >= 0.0) } else { raw.iter().any(|g| g.is_nan()) };
+            if bad {
+                let lc = l.clone();
+                ctx.violate(self.line_no, &unit, idx, Some(&lc), "variance-negative-or-nan", json!({"raw": format!("{:?}", raw)}));
+            }
+        }
         if let Some(d) = &di_raw {
             ctx.stats.eff_compared += 1;
             if d.len() != raw.len() || d.iter().zip(raw.iter()).any(|(a, b)| !same_bits(*a, *b)) {
